@@ -1435,8 +1435,24 @@ _ical_proc(struct ical_parser_s p[static 1U])
 					/* FINALLY a vevent thing */
 					/* rinse our bucket */
 					memset(&p->ve, 0, sizeof(p->ve));
-					/* copy global task properties */
+					/* copy global task properties, strings
+					 * among them stay the calendar's, every
+					 * task holds (and frees) its own copy */
 					p->ve.t = p->globve.t;
+					with (const char *s) {
+						if ((s = nummapstr_str(p->ve.t.owner))) {
+							p->ve.t.owner =
+								nummapstr_bang_str(strdup(s));
+						}
+						if ((s = nummapstr_str(p->ve.t.run_as.u))) {
+							p->ve.t.run_as.u =
+								nummapstr_bang_str(strdup(s));
+						}
+						if ((s = nummapstr_str(p->ve.t.run_as.g))) {
+							p->ve.t.run_as.g =
+								nummapstr_bang_str(strdup(s));
+						}
+					}
 					/* copy global scale */
 					p->ve.cal = p->globve.cal;
 					/* and set state to vevent */
